@@ -6,7 +6,8 @@ import openmdao.api as om
 def aero_surface(name, mesh, symmetry, **kw):
     s = {
         "name": name,
-        "symmetry": bool(symmetry),
+        # a numpy boolean is handed on as it is (user code often derives the flag from a comparison on the mesh)
+        "symmetry": symmetry if isinstance(symmetry, np.bool_) else bool(symmetry),
         "S_ref_type": "wetted",
         "mesh": np.array(mesh, dtype=float),
         "CL0": 0.0,
